@@ -129,7 +129,7 @@ namespace DashLive.Csrf
 
 theorem check_accepted_iff (c : Cfg) (st : St) (svc : Str) (ck : Option Str) (o t : Str) :
     (check c st svc ck o t).2 = .accepted ↔
-      ∃ k, ck = some k ∧ k ≠ [] ∧ t ∉ st.used ∧
+      ∃ k, ck = some k ∧ k ≠ [] ∧ t ∉ st.tokens ∧
         t.drop saltLen = c.mac (message c.strictOrigin k svc o (t.take saltLen)) := by
   unfold check
   cases ck with
@@ -137,55 +137,99 @@ theorem check_accepted_iff (c : Cfg) (st : St) (svc : Str) (ck : Option Str) (o 
   | some k =>
     by_cases hk : k = []
     · simp [hk]
-    · by_cases hu : t ∈ st.used
+    · by_cases hu : t ∈ st.tokens
       · simp [hk, hu]
       · by_cases hs : t.drop saltLen = c.mac (message c.strictOrigin k svc o (t.take saltLen))
         · simp [hk, hu, hs]
         · simp [hk, hu, hs]
 
-/-- consumed tokens stay consumed through a check -/
-theorem check_used_mono (c : Cfg) (st : St) (svc : Str) (ck : Option Str) (o t x : Str)
-    (h : x ∈ st.used) : x ∈ (check c st svc ck o t).1.used := by
+/-- a check never removes a record (nor changes the clock): records only grow -/
+theorem check_records_mono (c : Cfg) (st : St) (svc : Str) (ck : Option Str) (o t : Str)
+    (p : Str × Nat) (h : p ∈ st.used) : p ∈ (check c st svc ck o t).1.used := by
   unfold check
   cases ck with
   | none => simpa using h
   | some k =>
     by_cases hk : k = []
     · simpa [hk] using h
-    · by_cases hu : t ∈ st.used
+    · by_cases hu : t ∈ st.tokens
       · simpa [hk, hu] using h
       · by_cases hs : t.drop saltLen = c.mac (message c.strictOrigin k svc o (t.take saltLen))
         · simp [hk, hu, hs, h]
         · simp [hk, hu, hs, h]
 
+theorem mem_tokens_iff (st : St) (x : Str) : x ∈ st.tokens ↔ ∃ e, (x, e) ∈ st.used := by
+  unfold St.tokens
+  simp [List.mem_map]
+
+/-- consumed tokens stay consumed through a check -/
+theorem check_used_mono (c : Cfg) (st : St) (svc : Str) (ck : Option Str) (o t x : Str)
+    (h : x ∈ st.tokens) : x ∈ (check c st svc ck o t).1.tokens := by
+  obtain ⟨e, he⟩ := (mem_tokens_iff st x).1 h
+  exact (mem_tokens_iff _ x).2 ⟨e, check_records_mono c st svc ck o t _ he⟩
+
 /-- an accepted token has been recorded -/
 theorem check_accepted_records (c : Cfg) (st : St) (svc : Str) (ck : Option Str) (o t : Str)
-    (h : (check c st svc ck o t).2 = .accepted) : t ∈ (check c st svc ck o t).1.used := by
+    (h : (check c st svc ck o t).2 = .accepted) : t ∈ (check c st svc ck o t).1.tokens := by
   obtain ⟨k, rfl, hk, hu, hs⟩ := (check_accepted_iff c st svc ck o t).1 h
+  have hu' : t ∉ List.map Prod.fst st.used := hu
   unfold check
-  simp [hk, hu, hs]
+  simp [hk, hu', hs, St.tokens]
 
 /-- a token with a wrong signature has been recorded too (the code records first) -/
 theorem check_badSignature_records (c : Cfg) (st : St) (svc : Str) (ck : Option Str) (o t : Str)
-    (h : (check c st svc ck o t).2 = .badSignature) : t ∈ (check c st svc ck o t).1.used := by
+    (h : (check c st svc ck o t).2 = .badSignature) : t ∈ (check c st svc ck o t).1.tokens := by
   unfold check at h ⊢
   cases ck with
   | none => simp at h
   | some k =>
     by_cases hk : k = []
     · simp [hk] at h
-    · by_cases hu : t ∈ st.used
+    · by_cases hu : t ∈ st.tokens
       · simp [hk, hu] at h
       · by_cases hs : t.drop saltLen = c.mac (message c.strictOrigin k svc o (t.take saltLen))
         · simp [hk, hu, hs] at h
-        · simp [hk, hu, hs]
+        · have hu' : t ∉ List.map Prod.fst st.used := hu
+          simp [hk, hu', hs, St.tokens]
 
-/-- a consumed token is never accepted -/
+/-- a consumed token is never accepted – whatever the clock reads and whatever `expires` its
+record carries (the re-use lookup is by token string only) -/
 theorem check_of_used (c : Cfg) (st : St) (svc : Str) (ck : Option Str) (o t : Str)
-    (h : t ∈ st.used) : (check c st svc ck o t).2 ≠ .accepted := by
+    (h : t ∈ st.tokens) : (check c st svc ck o t).2 ≠ .accepted := by
   intro hacc
   obtain ⟨_, _, _, hu, _⟩ := (check_accepted_iff c st svc ck o t).1 hacc
   exact hu h
+
+/-- the verdict of a check does not depend on the clock -/
+theorem check_clock_irrelevant (c : Cfg) (st : St) (n : Nat) (svc : Str) (ck : Option Str) (o t : Str) :
+    (check c { st with now := n } svc ck o t).2 = (check c st svc ck o t).2 := by
+  have htok : ({ st with now := n } : St).tokens = st.tokens := rfl
+  unfold check
+  cases ck with
+  | none => rfl
+  | some k =>
+    by_cases hk : k = []
+    · simp [hk]
+    · by_cases hu : t ∈ st.tokens
+      · simp [hk, htok, hu]
+      · by_cases hs : t.drop saltLen = c.mac (message c.strictOrigin k svc o (t.take saltLen))
+        · simp [hk, htok, hu, hs]
+        · simp [hk, htok, hu, hs]
+
+/-- every step that is not a prune keeps every record -/
+theorem step_records_mono (c : Cfg) (st : St) (e : Ev) (he : e.isPrune = false)
+    (p : Str × Nat) (h : p ∈ st.used) : p ∈ (step c st e).1.used := by
+  cases e with
+  | check svc ck o t => simp only [step]; exact check_records_mono c st svc ck o t p h
+  | prune => simp [Ev.isPrune] at he
+  | pruneExpired => simp [Ev.isPrune] at he
+  | tick n => simpa [step] using h
+  | request => simpa [step] using h
+
+theorem step_tokens_mono (c : Cfg) (st : St) (e : Ev) (he : e.isPrune = false)
+    (x : Str) (h : x ∈ st.tokens) : x ∈ (step c st e).1.tokens := by
+  obtain ⟨ex, hx⟩ := (mem_tokens_iff st x).1 h
+  exact (mem_tokens_iff _ x).2 ⟨ex, step_records_mono c st e he _ hx⟩
 
 theorem acceptedCount_cons (t : Str) (p : Ev × Option Result) (h : List (Ev × Option Result)) :
     acceptedCount t (p :: h) =
@@ -198,9 +242,14 @@ theorem acceptedCount_cons (t : Str) (p : Ev × Option Result) (h : List (Ev × 
 theorem run_cons (c : Cfg) (st : St) (e : Ev) (es : List Ev) :
     run c st (e :: es) = (e, (step c st e).2) :: run c (step c st e).1 es := rfl
 
-/-- once consumed, a token is not accepted again as long as nothing is pruned -/
+theorem step_result_none (c : Cfg) (st : St) (e : Ev) (h : e.token? = none) :
+    (step c st e).2 = none := by
+  cases e <;> simp_all [step, Ev.token?]
+
+/-- once consumed, a token is not accepted again as long as nothing is pruned – whatever clock
+jumps and other requests are interleaved -/
 theorem acceptedCount_zero_of_used (c : Cfg) (t : Str) :
-    ∀ (evs : List Ev) (st : St), (∀ e ∈ evs, e.isPrune = false) → t ∈ st.used →
+    ∀ (evs : List Ev) (st : St), (∀ e ∈ evs, e.isPrune = false) → t ∈ st.tokens →
       acceptedCount t (run c st evs) = 0 := by
   intro evs
   induction evs with
@@ -208,18 +257,18 @@ theorem acceptedCount_zero_of_used (c : Cfg) (t : Str) :
   | cons e es ih =>
     intro st hnp hu
     have hes : ∀ e' ∈ es, e'.isPrune = false := fun e' h' => hnp e' (List.mem_cons_of_mem _ h')
-    rw [run_cons, acceptedCount_cons]
+    have he : e.isPrune = false := hnp e (List.mem_cons_self ..)
+    rw [run_cons, acceptedCount_cons, ih _ hes (step_tokens_mono c st e he t hu)]
     cases e with
-    | prune => exact absurd (hnp Ev.prune (List.mem_cons_self ..)) (by simp [Ev.isPrune])
     | check svc ck o t' =>
-      have hu' : t ∈ (step c st (Ev.check svc ck o t')).1.used := by
-        simp only [step]
-        exact check_used_mono c st svc ck o t' t hu
-      rw [ih _ hes hu']
       by_cases heq : t' = t
       · subst heq
         have := check_of_used c st svc ck o t' hu
         simp [step, Ev.token?, this]
       · simp [Ev.token?, heq]
+    | prune => simp [Ev.token?]
+    | pruneExpired => simp [Ev.token?]
+    | tick n => simp [Ev.token?]
+    | request => simp [Ev.token?]
 
 end DashLive.Csrf
